@@ -43,10 +43,10 @@ def _remove_unused_optional_outputs(
 
         if is_used_output(1) or is_used_output(2):
             return
+        # Drop the unused outputs instead of leaving unnamed ones behind: a later pass
+        # that names every value would otherwise turn them into real outputs again
         if len(node.outputs) > 1:
-            node.outputs[1].name = ""
-        if len(node.outputs) > 2:
-            node.outputs[2].name = ""
+            node.resize_outputs(1)
         node.attributes.pop("training_mode", None)
         return
 
